@@ -323,6 +323,11 @@ def run(p, report, tier):
                    "them from the utility rows with an independent tie-break")
     report.analysed["selection_loops"] = n_loops
     check_exclusion_mechanisms(p, report, funcs, facts)
+    report.rule("R1.4c", "a callee that is handed only the latest pick (one-element list / subscript of the accumulator) "
+                "together with the previous row carries that row's values into its result on every path "
+                "(must value-flow through marker-propagating operations; shape-only constructors and NaN-erasing "
+                "reductions do not carry), otherwise older picks lose their exclusion", floor=2)
+    check_carried_exclusion(p, report, funcs, facts)
 
     # ---- R1.3 ------------------------------------------------------------
     for f in funcs:
@@ -478,6 +483,68 @@ def callee_exclusions(p, f, call, pick_names):
             rets |= names_in(n.value)
     back = closure(rets, gedges)
     return any(b in back for (_, b, _) in ex)
+
+
+def check_carried_exclusion(p, report, funcs, facts, rule="R1.4c"):
+    """A project callee that is handed only the LATEST pick (a one-element
+    list / a subscript of the accumulator) can mask only that one; older
+    picks stay excluded only if the previous row it also receives is carried
+    into its result on every path (NaN through minimum, zero through
+    minimum).  Obligation: must value-flow from that parameter to every
+    return of the callee."""
+    from ..carry import MustCarry
+    n = 0
+    for rec in loop_records(funcs, facts):
+        f, ff, L, S, rnames, acc, edges, fw = rec
+        picks = rnames | acc
+        for st in ast.walk(L):
+            if not (isinstance(st, ast.Assign) and isinstance(st.value, ast.Call)):
+                continue
+            c = st.value
+            if c is S or not isinstance(c.func, (ast.Name, ast.Attribute)):
+                continue
+            r = p.resolve_expr(f.module, c.func)
+            if r is None or r[0] != "func":
+                continue
+            g = r[1]
+            params = g.params()
+            bind = {}
+            for i, a in enumerate(c.args):
+                if i < len(params):
+                    bind[params[i]] = a
+            for k in c.keywords:
+                if k.arg:
+                    bind[k.arg] = k.value
+            latest = [pn for pn, a in bind.items() if (names_in(a) & picks) and (
+                isinstance(a, ast.List) and len(a.elts) == 1 or
+                (isinstance(a, ast.Subscript) and not isinstance(a.slice, ast.Slice)))]
+            whole = [pn for pn, a in bind.items() if isinstance(a, ast.Name) and a.id in acc]
+            if not latest or whole:
+                continue
+            res = {base_name(t) for t in st.targets if base_name(t)}
+            carried_fw = forward_closure(res, edges) | res
+            carry = [pn for pn, a in bind.items() if pn not in latest and (names_in(a) & carried_fw)
+                     and not (names_in(a) & picks)]
+            if not carry:
+                continue
+            # the call's result must feed the selection operand
+            ops = operand_names(S, ff.locs)
+            if not (res & (closure(ops, edges) | ops)):
+                continue
+            for q in carry:
+                nonempty = [pn for pn in latest if isinstance(bind[pn], ast.List)]
+                mc = MustCarry(g.node, q, nonnull=[q], nonempty=nonempty)
+                rets = mc.run()
+                bad = [rn for rn, ok in rets if not ok]
+                n += 1
+                report.add(rule, f.qual, f"exclusion of older picks carried through `{q}` of {g.name} called as "
+                           f"{site_id(c, 70)}", f"{g.file}:{(bad[0] if bad else g.node).lineno}", not bad,
+                           detail=f"{len(rets)} return(s) of {g.name}: the value of `{q}` reaches each through "
+                                  "marker-propagating operations" if not bad else
+                           f"{g.name} receives only the latest pick; on a path to the return at line {bad[0].lineno} its "
+                           f"result is not computed from the values of `{q}` (shape-only / NaN-erasing operation), so "
+                           "the exclusion of older picks is lost")
+    return n
 
 
 class Report_proxy:
